@@ -24,43 +24,15 @@ class Spec:
         return b
 
 BOUNDS = {
-    'quick': {'inline_capacity_N': [0, 2], 'pre_state_capacity': 'N (inline) and N+2 (heap)', 'size': 'all sizes <= capacity (symbolic)', 'counts_and_range_lengths': '<= 2 (3 for initializer lists / pointer ranges)',
-              'element_values': 'all 2^32', 'faults_per_operation': '<= 1', 'outside': 'larger capacities/counts, N > 2, fancy pointers'},
-    'thorough': {'inline_capacity_N': [0, 1, 2, 3], 'pre_state_capacity': 'N (inline) and up to N+2 (heap)', 'size': 'all sizes <= capacity (symbolic)', 'counts_and_range_lengths': '<= 3',
-                 'element_values': 'all 2^32', 'faults_per_operation': '<= 2', 'outside': 'larger capacities/counts, N > 3, fancy pointers'},
+    'quick': {'inline_capacity_N': '0 and 2 for one-container operations; pairs (2,2) (0,0) (2,3) (3,2) (2,0) (0,2) for two-container operations',
+              'pre_state_capacity': 'N (inline) and N+2 (heap); additionally heap capacity 6 (N=2) and 5 (N=0) for the shifting operations on int',
+              'size': 'all sizes <= capacity (symbolic), except where a job name carries -sN / -saN / -sbN (pinned size: struct elements in the inline representation, single-pass ranges)',
+              'counts_and_range_lengths': '<= 2 (<= 3 for initializer lists, pointer ranges and the capacity-5/6 cells); big-count jobs: every count in the size_type range beyond max_size()',
+              'element_values': 'all 2^32', 'faults_per_operation': '<= 1 (2 for one insert job)', 'unwind': 'derived per job from the largest reachable capacity (+2); unwinding assertions on',
+              'outside': 'larger capacities/counts, N > 3, more than two containers per step, fancy pointers, element types other than the listed flavours'},
+    'thorough': {'inline_capacity_N': [0, 1, 2, 3], 'pre_state_capacity': 'N (inline) and up to N+4 (heap)', 'size': 'all sizes <= capacity (symbolic) except pinned jobs', 'counts_and_range_lengths': '<= 3',
+                 'element_values': 'all 2^32', 'faults_per_operation': '<= 2', 'unwind': 'derived per job; unwinding assertions on', 'outside': 'larger capacities/counts, N > 3, more than two containers per step, fancy pointers'},
 }
-
-
-# ---------------------------------------------------------------- shared two-container / range job sets (cheap int jobs + a few instrumented ones)
-def two_basic(tier, elem='int', fmask=0, afls=((0, 1), (0, 0)), ops=None, witness=None):
-    from .jobs import two_job, OPS2_ALL
-    js = []
-    cs = [(2, 2, 2, 2), (2, 2, 2, 4), (2, 2, 4, 2), (2, 2, 4, 4), (0, 0, 2, 2), (2, 3, 2, 3), (2, 3, 2, 5), (3, 2, 3, 3), (3, 2, 3, 4), (2, 0, 2, 1), (0, 2, 1, 2)] if tier == 'quick' else \
-         [(2, 2, 2, 2), (2, 2, 2, 4), (2, 2, 4, 2), (2, 2, 4, 4), (0, 0, 0, 2), (0, 0, 2, 2), (0, 0, 2, 0), (2, 3, 2, 3), (2, 3, 2, 5), (3, 2, 3, 2), (3, 2, 3, 3), (3, 2, 3, 4), (3, 2, 5, 4), (0, 2, 0, 2), (0, 2, 1, 2), (0, 2, 0, 4), (2, 0, 2, 0), (2, 0, 2, 1), (2, 0, 2, 3), (2, 0, 4, 1), (1, 3, 1, 2)]
-    for op in (ops or OPS2_ALL):
-        for (afl, ideq) in afls:
-            for (na, nb, ca, cb) in cs:
-                if elem.startswith('Tr') and ca == na and cb == nb and ca > 0 and cb > 0 and not (op.endswith('ctor') or op.endswith('ctor_alloc')):
-                    # instrumented elements, both containers inline: element buffers alias the container objects; pin the sizes (measured: > 10 GB otherwise)
-                    for (sa, sb) in sorted(set([(1, cb), (ca, 1), (ca, cb)])):
-                        js.append(two_job(op, elem, na, nb, ca, cb, afl=afl, ideq=ideq, fmask=fmask, witness=witness, sizea=sa, sizeb=sb))
-                else:
-                    js.append(two_job(op, elem, na, nb, ca, cb, afl=afl, ideq=ideq, fmask=fmask, witness=witness))
-    return [j for j in js if j is not None]
-
-def rng_basic(tier, elem='int'):
-    from .jobs import rng_job
-    js = []
-    for op in ['ctor_range', 'assign_range', 'insert_range', 'append_range']:
-        for (n, cap) in [(2, 2), (2, 4), (0, 0)]:
-            if op == 'ctor_range' and cap != n: continue
-            for itk in (1, 3): js.append(rng_job(op, elem, n, cap, itk=itk))
-            if elem == 'int' or op == 'ctor_range': js.append(rng_job(op, elem, n, cap, itk=0, lenfix=2))
-            else:
-                for sz in sorted(set([0, max(cap - 1, 0), cap])): js.append(rng_job(op, elem, n, cap, itk=0, lenfix=2, sizefix=sz))   # instrumented type + single pass: size pinned too
-    for op in ['ctor_count', 'ctor_count_val', 'ctor_gen', 'ctor_il']:
-        for n in (0, 2): js.append(rng_job(op, elem, n, n))
-    return [j for j in js if j is not None]
 
 REG = {}
 NOT_APPLICABLE = {
